@@ -134,7 +134,16 @@ def check(fb, ctx):
         ex = find_all(h["body"], lambda z: z.get("k") == "mcall" and (z.get("def") or {}).get("path", "").endswith("Term::extract_parameters"))
         oc = find_all(h["body"], lambda z: z.get("k") == "mcall" and (z.get("def") or {}).get("path", "").endswith("Op::collect_parameters"))
         sc = [n for n in find_all(h["body"], lambda z: z.get("k") in ("tstruct", "path") and hirq.res_path(z.get("res") or {}) and hirq.res_path(z["res"]).endswith("Scope::Parameter"))]
-        ctx.check(len(ex) >= 2 and len(oc) >= 1 and bool(sc), "POSITIONS", f"{fn.split('::')[0]} Rule::new collects from head, body, expressions and scopes", f"POSITIONS|{fn}", f"extract_parameters calls: {len(ex)}, collect_parameters calls: {len(oc)}, scope parameters handled: {bool(sc)}", f"{b['file']}:{b['line']}")
+        # which positions feed the collectors (a `for` per position or one iterator chain over both): `head.terms`, the `.terms` of
+        # the elements of `body`, the `.ops` of the elements of `expressions` - parameters are identified by position
+        p_head, p_body, p_expr = hirq.param_ids(h, 0), hirq.param_ids(h, 1), hirq.param_ids(h, 2)
+        terms_reads = find_all(h["body"], lambda z: z.get("k") == "field" and z.get("name") == "terms")
+        head_terms = [z for z in terms_reads if find_all(z["e"], lambda y: hirq.is_lid(y, p_head))]
+        elem_terms = [z for z in terms_reads if not find_all(z["e"], lambda y: hirq.is_lid(y, p_head))]
+        body_used = bool(find_all(h["body"], lambda y: hirq.is_lid(y, p_body))) and bool(elem_terms)
+        ops_reads = bool(find_all(h["body"], lambda z: z.get("k") == "field" and z.get("name") == "ops")) and bool(find_all(h["body"], lambda y: hirq.is_lid(y, p_expr)))
+        positions_ok = bool(ex) and bool(head_terms) and body_used and bool(oc) and ops_reads
+        ctx.check((len(ex) >= 2 or positions_ok) and positions_ok and len(oc) >= 1 and bool(sc), "POSITIONS", f"{fn.split('::')[0]} Rule::new collects from head, body, expressions and scopes", f"POSITIONS|{fn}", f"extract_parameters calls: {len(ex)}, collect_parameters calls: {len(oc)}, scope parameters handled: {bool(sc)}", f"{b['file']}:{b['line']}")
     for fn in (f"{B}::fact::Fact::new", f"{P}::Fact::new"):
         b = fb.body(fn)
         h = fb.hir_of(b)
